@@ -360,7 +360,7 @@ class Parser:
 
     def parse_integer_literal(self, stream: TokenStream) -> Expression:
         value = stream.current.value
-        if value.startswith("0") and len(value) > 1:
+        if self._has_leading_zero(value):
             raise JSONPathSyntaxError("invalid integer literal", token=stream.current)
 
         # Convert to float first to handle scientific notation.
@@ -373,7 +373,7 @@ class Parser:
 
     def parse_float_literal(self, stream: TokenStream) -> Expression:
         value = stream.current.value
-        if value.startswith("0") and len(value.split(".")[0]) > 1:
+        if self._has_leading_zero(value):
             raise JSONPathSyntaxError("invalid float literal", token=stream.current)
 
         try:
@@ -382,6 +382,12 @@ class Parser:
             raise JSONPathSyntaxError(
                 "invalid float literal", token=stream.current
             ) from err
+
+    def _has_leading_zero(self, value: str) -> bool:
+        """Return `True` if the integer part of number literal _value_ starts with
+        a superfluous zero."""
+        digits = value.lstrip("-").replace("E", "e").split("e")[0].split(".")[0]
+        return len(digits) > 1 and digits.startswith("0")
 
     def parse_prefix_expression(self, stream: TokenStream) -> Expression:
         tok = stream.next_token()
